@@ -202,7 +202,7 @@ func (rn *runner) recHelper(op *Op) {
 		opt = mux.WithSLogRecovery(op.N, slog.New(slog.NewTextHandler(&buf, nil)))
 	}
 	r := mux.NewRouter[*H]("rh", e.call, &H{kind: "404"}, b405, bopt, opt)
-	r.Get("/x", &H{kind: "route", id: "rh:/x"}, e.mw("m"))
+	r.Get("/x", &H{kind: "route", id: "rh:/x", prog: []Step{{K: "wh", N: 204}}}, e.mw("m"))
 	e.faults = map[string]string(op.Faults)
 	o := e.serve(r, mkRequest(op.Method, op.Path, "", nil))
 	e.faults = nil
